@@ -45,7 +45,7 @@ def run(tier, seed):
     V = C.Verdict(PID)
     thorough = tier == "thorough"
     cov = {"model_checked": [], "generation": []}
-    sk = [x for x in c03.SK if x[0] != "drop"]     # DROP TABLE has its own production (C03 records what it yields)
+    sk = [x for x in c03.SK if x[0] not in ("drop", "upsert")]     # DROP TABLE has its own production (C03 records what it yields)
     cs = F.consts(sk, MaxStmts=3)
     r = F.mc(cs, "<=3 statements of 18 shapes")
     states, trans = r.distinct, r.generated
